@@ -688,41 +688,124 @@ func checkC19(ctx *Ctx) *Result {
 				good, detail = false, "the error itself is yielded where it is known to be a join, not in the default (non-join) case"
 			}
 			r.check(good, "R19.2", desc+" (leaf)", p.Pos(ys.Call.Pos()), detail, 1)
-		case len(ranges) == 2 && ranges[0] != nil && ranges[1] != nil:
+		case len(ranges) == 2 && ranges[0] != nil:
 			nJoin++
-			inner, outer := ranges[0], ranges[1]
+			inner := ranges[0]
 			good, detail := true, ""
-			// inner: for k := range All(v)
+			// the loop over the children: `for _, c := range <children>` or the
+			// index loop `for i := 0; i < len(<children>); i++ { … <children>[i] … }`
+			var loopNode ast.Node
+			for q := parents[inner]; q != nil && loopNode == nil; q = parents[q] {
+				switch q.(type) {
+				case *ast.RangeStmt, *ast.ForStmt:
+					loopNode = q
+				}
+			}
+			var coll ast.Expr       // what is iterated
+			var body *ast.BlockStmt // the loop body
+			isChild := func(e ast.Expr) bool { return false }
+			switch l := loopNode.(type) {
+			case *ast.RangeStmt:
+				coll, body = l.X, l.Body
+				isChild = func(e ast.Expr) bool { return l.Value != nil && objOf(e) != nil && objOf(e) == objOf(l.Value) }
+			case *ast.ForStmt:
+				body = l.Body
+				init, _ := l.Init.(*ast.AssignStmt)
+				cond, _ := l.Cond.(*ast.BinaryExpr)
+				post, _ := l.Post.(*ast.IncDecStmt)
+				var iObj types.Object
+				if init != nil && init.Tok == token.DEFINE && len(init.Lhs) == 1 && len(init.Rhs) == 1 {
+					if lit0, ok := init.Rhs[0].(*ast.BasicLit); ok && lit0.Value == "0" {
+						iObj = objOf(init.Lhs[0])
+					}
+				}
+				okShape := iObj != nil && cond != nil && cond.Op == token.LSS && objOf(cond.X) == iObj && post != nil && post.Tok == token.INC && objOf(post.X) == iObj
+				if okShape {
+					if lc, ok := cond.Y.(*ast.CallExpr); ok && len(lc.Args) == 1 {
+						if id, ok := lc.Fun.(*ast.Ident); ok && id.Name == "len" {
+							coll = lc.Args[0]
+						}
+					}
+				}
+				// neither the index nor the slice is assigned in the body
+				if coll != nil {
+					ast.Inspect(l.Body, func(m ast.Node) bool {
+						switch st := m.(type) {
+						case *ast.AssignStmt:
+							for _, lh := range st.Lhs {
+								if o := objOf(lh); o != nil && (o == iObj || o == objOf(coll)) {
+									coll = nil
+								}
+							}
+						case *ast.IncDecStmt:
+							if o := objOf(st.X); o != nil && o == iObj {
+								coll = nil
+							}
+						}
+						return coll != nil
+					})
+				}
+				if coll != nil {
+					cObj := objOf(coll)
+					isChild = func(e ast.Expr) bool {
+						ix, ok := e.(*ast.IndexExpr)
+						return ok && cObj != nil && objOf(ix.X) == cObj && objOf(ix.Index) == iObj
+					}
+				}
+			}
+			// inner: for k := range All(child)
 			ic, ok := inner.X.(*ast.CallExpr)
 			if !ok || !isAllCall(ic) || len(ic.Args) != 1 {
 				good, detail = false, "the inner loop does not range over a recursive All(child)"
+				ic = nil
 			} else if inner.Key == nil || inner.Value != nil || objOf(inner.Key) != arg {
 				good, detail = false, "the yielded value is not the element produced by the recursive iteration"
-			} else if outer.Value == nil || objOf(ic.Args[0]) != objOf(outer.Value) {
+			} else if !isChild(ic.Args[0]) {
 				good, detail = false, "the recursive call is not applied to the child being visited"
 			}
-			// outer: for _, c := range <alias>.Unwrap()
-			oc, ok := outer.X.(*ast.CallExpr)
-			if ok {
+			// what is iterated: <alias>.Unwrap(), directly or through a variable
+			// assigned once from it
+			if id, isId := coll.(*ast.Ident); isId && coll != nil {
+				var def ast.Expr
+				nAssign := 0
+				ast.Inspect(lit.Body, func(m ast.Node) bool {
+					if as, ok := m.(*ast.AssignStmt); ok {
+						for k, lh := range as.Lhs {
+							if lid, ok := lh.(*ast.Ident); ok && (info.Defs[lid] == info.ObjectOf(id) || info.Uses[lid] == info.ObjectOf(id)) && info.ObjectOf(id) != nil {
+								nAssign++
+								if len(as.Rhs) == len(as.Lhs) {
+									def = as.Rhs[k]
+								}
+							}
+						}
+					}
+					return true
+				})
+				if nAssign == 1 && def != nil {
+					coll = def
+				}
+			}
+			oc, isCall := coll.(*ast.CallExpr)
+			if coll == nil || !isCall {
+				good, detail = false, "the outer loop does not range over the join's own Unwrap()"
+			} else {
 				sel, isSel := oc.Fun.(*ast.SelectorExpr)
 				if !isSel || sel.Sel.Name != "Unwrap" || !alias[objOf(sel.X)] {
 					good, detail = false, "the outer loop does not range over the join's own Unwrap()"
 				} else if sig, _ := info.TypeOf(oc.Fun).(*types.Signature); sig == nil || sig.Results().Len() != 1 || types.TypeString(sig.Results().At(0).Type(), nil) != "[]error" {
 					good, detail = false, "Unwrap() does not return []error"
 				}
-			} else {
-				good, detail = false, "the outer loop does not range over the join's own Unwrap()"
-			}
-			if region(outer.X) != "join" {
-				good, detail = false, "children are flattened outside the join case of the dispatch"
+				if region(oc) != "join" {
+					good, detail = false, "children are flattened outside the join case of the dispatch"
+				}
 			}
 			r.check(good, "R19.2", desc+" (join element)", p.Pos(ys.Call.Pos()), detail, 1)
 			// every child is flattened, once: each pass through the outer
 			// loop's body starts exactly one recursive iteration
-			if ic != nil && outer.Body != nil {
-				bg := cfg.New(outer.Body, func(*ast.CallExpr) bool { return true })
+			if ic != nil && body != nil {
+				bg := cfg.New(body, func(*ast.CallExpr) bool { return true })
 				min, max := yieldCounts(bg, func(c *ast.CallExpr) bool { return c == ic }, nil)
-				r.check(min == 1 && max == 1, "R19.2", "every child of a join is flattened exactly once @"+p.Pos(outer.Pos()), p.Pos(outer.Pos()),
+				r.check(min == 1 && max == 1, "R19.2", "every child of a join is flattened exactly once @"+p.Pos(loopNode.Pos()), p.Pos(loopNode.Pos()),
 					fmt.Sprintf("a pass through the loop over the join's children starts between %d and %d recursive iterations (a child can be skipped or visited twice)", min, max), len(bg.Blocks))
 			}
 		default:
@@ -865,6 +948,8 @@ func checkC19(ctx *Ctx) *Result {
 			l0(ctx, r, "R4.1", val.Lists[f])
 		}
 		builderRule(ctx, r, "R4.1")
+		// ... and constructed exactly where the documentation names a violation
+		r.share(checkC05(ctx), map[string]string{"R5.1": "decision-table equality: on every per-element path of every validator the errors constructed are the documented ones, no more (a spurious second error) and no fewer (a name that is skipped)"}, nil)
 	} else {
 		r.undecided("R19.3", "L0", strings.Join(vf.Problems, "; "))
 	}
